@@ -105,7 +105,7 @@ class Scheduler:
                 else:
                     # every live thread is blocked on a real lock held by ... nobody we control: wait for any arrival
                     got = None
-                    deadline = time.time() + 5
+                    deadline = time.time() + max(5, 20 * self.grace)
                     while time.time() < deadline and got is None:
                         for b in list(blocked):
                             if sts[b]["arrived"].acquire(timeout=0.02):
